@@ -1,9 +1,9 @@
 SPECIFICATION Spec
 CONSTANTS
-  Alphabet = {"lt", "gt", "slash", "qmark", "bang", "eq", "dq", "sp", "nl", "x", "nul"}
+  Alphabet = {"lt", "gt", "slash", "sp", "x", "eq", "nul"}
   MaxLen = 5
-  Emit = TRUE
-  VoidClosesTag = TRUE
+  Emit = FALSE
+  VoidClosesTag = FALSE
   NameStopNeedsGt = TRUE
   DoctypeQuote = "remember"
   NulInTagIsError = TRUE
